@@ -146,6 +146,12 @@ def program_job(arg):
         rep.bump("variant", name.split("=")[0] if "hashseed" in name or "store" in name else name)
         a = m["sync"] if name != "entry_call" else dict((k, v) for k, v in m["sync"].items())
         b = base["sync"]
+        if name == "store=noop":
+            # the no-op store holds no blob, so nothing is handed to sync_paths: compare the maps computed by the analysis
+            a, b = m["all_paths"], dict((k, v) for k, v in base["all_paths"].items())
+            if not a:
+                rep.inconclusive.append("program %d: signature map of the noop variant not observed" % idx)
+                continue
         if name == "entry_call":
             # calling the entry directly evaluates each top-level keep on its own: compare per path
             b = dict((k, v) for k, v in b.items() if k in a)
